@@ -1,8 +1,9 @@
 #!/usr/bin/env python3
-"""tools/archive_seed.py Cxx 'needs' 'caught: ...'  -> /verif/seeded/Cxx/{patch.diff,demo,notes.md,meta.json}"""
+"""tools/archive_seed.py Cxx 'needs' 'caught: ...' [round] -> /verif/seeded/Cxx/{patch.diff,demo,notes.md,meta.json}"""
 import sys, os, shutil, json, re
 pid, needs, caught = sys.argv[1], sys.argv[2], sys.argv[3]
-src = f'/tmp/seed-out/{pid}'; dst = f'/verif/seeded/{pid}'
+rnd = sys.argv[4] if len(sys.argv) > 4 else ''
+src = f'/tmp/seed-out{rnd}/{pid}'; dst = f'/verif/seeded/{pid}' + (f'/r{rnd}' if rnd else '')
 os.makedirs(dst, exist_ok=True)
 for f in ['patch.diff', 'seed_demo.rs', 'demo.sh', 'notes.md']:
     if os.path.exists(f'{src}/{f}'): shutil.copy(f'{src}/{f}', f'{dst}/{f}')
